@@ -80,6 +80,53 @@ CLAIMED = {
   note=COMMON_NOTE + "difflib.unified_diff is a parameter with assumption UdSpec (validated on every case); re \\w modelled on a "
        "declared character domain; JSON_FRAGMENT generators and FrrFileDiffer's frr.conf branch are not modelled.",
   design="§5 C19", technique="Lean 4 proof (fold/argmax lemmas, splitlines model) + differential correspondence"),
+ "C01": dict(
+  text="PARTIAL proof. The device of the property is the specification Spec/Device.lean. Lean theorems: one level of that device "
+       "refines a finite map slot(rule,key) -> line: put/delete/exit commands act on exactly one slot, keep the level well-formed, "
+       "keep an identical line with its subtree, and leave every other slot's line, subtree and position alone; any command "
+       "sequence is determined per slot by the fold of the abstract step (C01_cmds_refine); equal maps give equal line sets. With "
+       "C08 (removal before re-creation, sort is a permutation) this is the algebra convergence rests on. The end-to-end statement "
+       "apply(cmd_paths(patch(old,new)),old) ~ new, second diff/patch empty, along chains of targets is NOT a theorem: it is decided "
+       "on every generated case by executing the real patch on the device specification (Python twin cross-checked against the Lean "
+       "spec). Full-strength statement false by design for permanent/ignore_changes (kernel-checked witnesses) and in 5 recorded "
+       "corner cases (F01c-g).",
+  note=COMMON_NOTE + "Spec/Device.lean is my reading of 'a device that holds one line per rule and key'; formatter.cmd_paths is "
+       "executed, not modelled here; block-structured vendors only; common logics; no rule row starts with the negation word.",
+  design="§5 C01", technique="Lean 4 proof (refinement of the device level to an abstract map) + differential correspondence + simulator oracle over chains"),
+ "C13": dict(
+  text="Lean theorems over the model of apply_json_fragment/_ensure_pointer_exists/_resolve_json_pointers/apply_acl_filters/"
+       "make_patch/apply_patch incl. jsonpointer, fnmatch and RFC 6902 application: under SpineObj (objects above every selectable "
+       "pointer) the merged document equals the fragment inside the patterns, the old document outside, is idempotent, also along "
+       "chains of generators; the resolver returns exactly the selected pointers and rebuilt pointers denote the matched keys "
+       "(any characters); filters return sub-documents; patch application is compositional and the round trip holds relative to "
+       "LibCorrect. Full statements false of the code for arrays/strings below patterns: 5 kernel-checked witnesses; 10 recorded "
+       "findings (4 of them are jsonpatch 1.33's own round-trip failures). Tie: 327k (quick) cases incl. exhaustive two-key "
+       "documents and fnmatch globs.",
+  note=COMMON_NOTE + "jsonpatch.make_patch (diff algorithm) is a parameter (LibCorrect is validated on every pair and is FALSE for "
+       "the recorded library findings); floats and the 'test' op not modelled.",
+  design="§5 C13", technique="Lean 4 proof (pointer/tree lemmas, induction over pattern lists) + differential correspondence, exhaustive small documents"),
+ "C15": dict(
+  text="Lean theorems: merge laws for every merger table with Merge/DictMerge nested to any depth (unset never overrides, "
+       "ForbidChange equal-or-conflict, Unite union, Concat, recursive merge, associativity, commutativity up to concat order, "
+       "merge(first,*others) independent of the order of others); executor: a pair handler is symmetric at the two ends, direct and "
+       "indirect pair dictionaries are independent of rule order, mirrored peer address/AS, interface decision table. Mirroring of "
+       "whole sessions holds under KeyCompat (partial); false without it and execute_for's success depends on rule order through "
+       "interface creation: kernel-checked witnesses, 2 recorded findings. Tie: MeshExecutor.execute_for and basemodel.merge vs the "
+       "model on 8.3k (quick) topologies/registries/permutations.",
+  note=COMMON_NOTE + "name-template matching is shipped as the real match matrix; adaptix conversion, storage adapter and "
+       "ipaddress are executed; virtual pairs are covered by tie and oracle only.",
+  design="§5 C15", technique="Lean 4 proof (merge algebra, permutation invariance of folds) + differential correspondence over all handler permutations"),
+ "C17": dict(
+  text="Lean theorems over the model of implicit.config / merge_dicts / the completion (after repair 387ab6b): completion keeps "
+       "every explicit line in order at every depth; merge_dicts(t,t)=t; a default line is present iff it was explicit or no line of "
+       "its kind is there; '!' rules add nothing at their level; completion is idempotent for rule sets with pairwise disjoint, "
+       "self-matching, distinct sibling rows (decidable; holds for the shipped sets); a default of a kind absent on both sides is "
+       "present in both completions. Tie: implicit.config/merge_dicts vs the model for every hardware branch inside the grammar and "
+       "random rule sets; oracle: the clauses incl. the patch clause with the shipped rulebooks on all 15 hardware branches. "
+       "By-design deviations recorded as findings F17a/F17b.",
+  note=COMMON_NOTE + "hardware branches whose implicit rows are regex rows (Huawei other, Nexus N3x.., Cisco) are outside the Lean "
+       "matcher and checked by the oracle only; the patch clause executes vendor logics.",
+  design="§5 C17", technique="Lean 4 proof (structural induction over rule trees) + differential correspondence"),
 }
 REASONS = {}
 def main():
